@@ -16,6 +16,8 @@ mod json;
 mod release;
 mod rng;
 mod stats;
+mod streams;
+mod supplysim;
 mod uni;
 mod unicheck;
 mod unisched;
@@ -108,6 +110,8 @@ fn main() {
                 "C02" => unicheck::run_uni_property(&opt, "C02"),
                 "C03" => unicheck::run_uni_property(&opt, "C03"),
                 "C18" => unicheck::run_c18(&opt),
+                "C09" => supplysim::run_c09(&opt),
+                "C10" => streams::run_c10(&opt),
                 other => {
                     eprintln!("HARNESS-ERROR: no check for property {}", other);
                     2
@@ -132,6 +136,8 @@ fn main() {
             let code = match engine.as_str() {
                 "uni" => unicheck::replay_uni(path, &text),
                 "uni-tight" => unicheck::replay_tight(path, &text),
+                "supply" => supplysim::replay_supply(path, &text),
+                "stream" => streams::replay_stream(path, &text),
                 other => {
                     eprintln!("HARNESS-ERROR: unknown replay engine '{}'", other);
                     2
